@@ -91,11 +91,8 @@ impl ZoneStoreHandle {
         name: &str,
         record_type: u16,
     ) -> Result<Option<Vec<ResolvedRecord>>> {
-        let name = if name.is_empty() {
-            Name::new()
-        } else {
-            Name::from_utf8(name).anyerr()?
-        };
+        // built the way `parse_name_as_pkarr_with_origin` builds the name it hands to `resolve`
+        let name = Name::from_labels(name.split('.').filter(|l| !l.is_empty())).anyerr()?;
         let set = self
             .store
             .resolve(
